@@ -13,8 +13,19 @@ import (
 	"golang.org/x/tools/go/ssa/ssautil"
 )
 
-const verifRoot = "/verif"
-const repoRoot = "/repo"
+// verifRoot and repoRoot are /verif and /repo for every registered check. The
+// environment overrides exist only so that the same machinery can be pointed at
+// a scratch copy of /verif (whose go.mod replaces point at a scratch worktree
+// of /repo) when seeded changes are evaluated without touching /repo itself.
+var verifRoot = envOr("SYMGO_VERIF_ROOT", "/verif")
+var repoRoot = envOr("SYMGO_REPO_ROOT", "/repo")
+
+func envOr(k, d string) string {
+	if v := os.Getenv(k); v != "" {
+		return v
+	}
+	return d
+}
 
 // repoDirOf maps an import path of the repository to its directory.
 func repoDirOf(pkgPath string) string {
